@@ -22,6 +22,8 @@ fn build_image(fs: &str,label: &str,rng: &mut Rng) -> Vec<u8> {
         }
     }
     if fs=="prodos" || fs=="fat" { let _ = d.create("SUB"); }
+    // a deleted file leaves a stale directory entry behind the live ones
+    if n>1 { let _ = d.delete(&format!("F{}{}",n-1,ext)); }
     d.get_img().to_bytes()
 }
 
@@ -79,11 +81,31 @@ fn imd_with_maps(b: &[u8],cyl_map: bool,head_map: bool) -> Option<Vec<u8>> {
     Some(out)
 }
 
+/// the IMD header and the first `k` track records
+fn imd_first_tracks(b: &[u8],k: usize) -> Option<Vec<u8>> {
+    let mut p = b.iter().position(|x| *x==0x1a)? + 1;
+    for _ in 0..k {
+        if p+5 > b.len() { return None; }
+        let (head,nsec,code) = (b[p+2],b[p+3] as usize,b[p+4]);
+        if code>6 { return None; }
+        let size = 128usize << code;
+        p += 5 + nsec + (if head & 0x80 != 0 {nsec} else {0}) + (if head & 0x40 != 0 {nsec} else {0});
+        for _ in 0..nsec {
+            if p >= b.len() { return None; }
+            p += 1 + match b[p] { 0 => 0, 1 | 3 | 5 | 7 => size, _ => 1 };
+        }
+    }
+    if p > b.len() { return None; }
+    Some(b[..p].to_vec())
+}
+
 fn consume_image(bytes: &Vec<u8>,hint: Option<&str>) -> String {
     match a2kit::create_fs_from_bytestream(bytes,hint) {
         Ok(mut d) => {
             let _ = d.stat();
             let _ = d.catalog_to_vec("/");
+            let _ = d.catalog_to_vec("*.*");
+            let _ = d.catalog_to_vec("*");
             let _ = d.tree(true,None);
             let paths = d.glob("*",false).unwrap_or(Vec::new());
             let mut n = 0;
@@ -147,6 +169,20 @@ pub fn pieces(toks: &[&str]) -> String {
                     }
                 }
             }
+            // ranges that reach beyond the image, and the `last bload` ranges on images that end before the pointers they read
+            for len in [0usize,1,256,0xaa60,0xaa73,0xaa74,0xbeb9,0xbec9,0xbeca,0xc000] {
+                for which in 0..3 {
+                    n += 1;
+                    let r = catch_unwind(AssertUnwindSafe(|| {
+                        let mut d = a2kit::lang::merlin::disassembly::Disassembler::new();
+                        let img = vec![0xffu8;len];
+                        let range = match which { 0 => a2kit::lang::merlin::disassembly::DasmRange::LastBloadDos33, 1 => a2kit::lang::merlin::disassembly::DasmRange::LastBloadProDos,
+                                                  _ => a2kit::lang::merlin::disassembly::DasmRange::Range([len/2,len+7]) };
+                        let _ = d.disassemble(&img,range,a2kit::lang::merlin::ProcessorType::_6502,"some");
+                    }));
+                    if r.is_err() && bad.len()<3 { bad.push(format!("image of {} bytes, range kind {}",len,which)); }
+                }
+            }
             if bad.is_empty() { format!("ok inputs={}",n) } else { format!("FAIL panic: disassembler panicked on truncated input: {}",bad.join("; ")) }
         },
         "wozchunk" => {
@@ -193,16 +229,24 @@ pub fn run(toks: &[&str]) -> String {
             with_watchdog_secs(120,move || {
                 let mut bad: Vec<String> = Vec::new();
                 let mut n = 0; let mut mounted = 0;
+                // one byte at a time, then the two and four bytes that start there as one little-endian number
+                let mut variants: Vec<(usize,Vec<u8>)> = Vec::new();
                 for pos in base..(base+span).min(bytes.len()) {
-                    for v in [0u8,1,2,0x10,0x20,0x7f,0x80,0xf0,0xff] {
-                        if bytes[pos]==v { continue; }
-                        let mut b = bytes.clone(); b[pos] = v;
+                    for v in [0u8,1,2,0x10,0x20,0x2a,0x3f,0x7f,0x80,0xc3,0xe5,0xf0,0xff] { variants.push((pos,vec![v])); }
+                    for v in [0u16,1,0x00ff,0x0100,0x7fff,0xffff] { variants.push((pos,v.to_le_bytes().to_vec())); }
+                    for v in [0u32,1,8,1279,0x0000ffff,0x7fffffff,0xffffffff] { variants.push((pos,v.to_le_bytes().to_vec())); }
+                }
+                for (pos,val) in variants {
+                    {
+                        if pos+val.len()>bytes.len() || bytes[pos..pos+val.len()]==val[..] { continue; }
+                        let v = val[0];
+                        let mut b = bytes.clone(); b[pos..pos+val.len()].copy_from_slice(&val);
                         n += 1;
                         match catch_unwind(AssertUnwindSafe(|| consume_image(&b,Some(hint)))) {
                             Ok(r) => { if r.starts_with("mounted") { mounted += 1; } },
                             Err(e) => { if bad.len()<3 {
                                 let msg = if let Some(s) = e.downcast_ref::<String>() { s.clone() } else if let Some(s) = e.downcast_ref::<&str>() { s.to_string() } else { "?".to_string() };
-                                bad.push(format!("byte {} = {}: {}",pos,v,msg.replace('\n'," "))); } }
+                                bad.push(format!("byte {} = {} ({} bytes wide): {}",pos,v,val.len(),msg.replace('\n'," "))); } }
                         }
                     }
                 }
@@ -230,6 +274,59 @@ pub fn run(toks: &[&str]) -> String {
                         if let Err(e) = catch_unwind(AssertUnwindSafe(|| consume_image(&t,Some("imd")))) { if bad.len()<3 {
                             let msg = if let Some(s) = e.downcast_ref::<String>() { s.clone() } else if let Some(s) = e.downcast_ref::<&str>() { s.to_string() } else { "?".to_string() };
                             bad.push(format!("maps cyl={} head={} truncated at {}: {}",cm,hm,cut,msg.replace('\n'," "))); } }
+                    }
+                }
+                // the track table itself: only the first tracks, an empty track record in front of the first, no sectors on a user track
+                let mut tables: Vec<(String,Vec<u8>)> = Vec::new();
+                for k in [1usize,2,3,5] { if let Some(v) = imd_first_tracks(&bytes,k) { tables.push((format!("first {} tracks only",k),v)); } }
+                if let Some(hdr) = bytes.iter().position(|x| *x==0x1a) {
+                    for rec in [[5u8,0,0,0,0],[5,0,0,0,2],[3,0,0,0,3]] {
+                        let mut v = bytes[..hdr+1].to_vec(); v.extend_from_slice(&rec); v.extend_from_slice(&bytes[hdr+1..]);
+                        tables.push((format!("empty track record {:?} in front",rec),v));
+                    }
+                    // sector count and size code of the first track at their limits
+                    for (o,val) in [(3usize,0u8),(3,1),(3,32),(3,255),(4,0),(4,3),(4,6),(4,7)] {
+                        let mut v = bytes.clone(); if hdr+1+o < v.len() { v[hdr+1+o] = val; tables.push((format!("first track byte {} = {}",o,val),v)); }
+                    }
+                }
+                for (what,v) in tables {
+                    n += 1;
+                    if let Err(e) = catch_unwind(AssertUnwindSafe(|| consume_image(&v,Some("imd")))) { if bad.len()<3 {
+                        let msg = if let Some(s) = e.downcast_ref::<String>() { s.clone() } else if let Some(s) = e.downcast_ref::<&str>() { s.to_string() } else { "?".to_string() };
+                        bad.push(format!("{}: {}",what,msg.replace('\n'," "))); } }
+                }
+                if bad.is_empty() { format!("swept variants={}",n) } else { format!("PANICKED {}",bad.join("; ")) }
+            }).replacen("ok PANICKED","FAIL panic:",1)
+        },
+        "jsonfields" => {
+            // malform id jsonfields seed fs : a valid file image in JSON with one field at a time set to values of another shape (empty,
+            // short, long, huge numbers, far chunk keys); every reader must return
+            let fs = toks[4].to_string();
+            with_watchdog_secs(60,move || {
+                let mut f = match fs.as_str() {
+                    "dos3x" => a2kit::fs::dos3x::new_fimg(256,"TEST"), "prodos" => a2kit::fs::prodos::new_fimg(512,false,"TEST"),
+                    "pascal" => a2kit::fs::pascal::new_fimg(512,false,"TEST"), "cpm" => a2kit::fs::cpm::new_fimg(1024,false,"TEST.TXT"),
+                    _ => a2kit::fs::fat::new_fimg(512,false,"TEST.TXT") }.expect("fimg");
+                f.desequence(&payload(3,0,700));
+                let base = match json::parse(&f.to_json(None)) { Ok(j) => j, Err(_) => return "FAIL own JSON does not parse".to_string() };
+                let mut bad: Vec<String> = Vec::new();
+                let mut n = 0;
+                let keys: Vec<String> = base.entries().map(|(k,_)| k.to_string()).collect();
+                for k in keys {
+                    if k=="chunks" { continue; }
+                    for v in [json::JsonValue::String("".to_string()),json::JsonValue::String("00".to_string()),json::JsonValue::String("ff".repeat(9)),json::JsonValue::String("zz".to_string()),
+                              json::JsonValue::Number(0.into()),json::JsonValue::Number(1.into()),json::JsonValue::Number(4096.into()),json::JsonValue::Null] {
+                        let mut j = base.clone(); j[k.as_str()] = v.clone();
+                        n += 1;
+                        let s = j.dump();
+                        let r = catch_unwind(AssertUnwindSafe(|| {
+                            if let Ok(g) = a2kit::fs::FileImage::from_json(&s) {
+                                let _ = g.unpack_raw(true); let _ = g.unpack_txt(); let _ = g.unpack_bin(); let _ = g.unpack_tok(); let _ = g.get_load_address(); let _ = g.unpack(); let _ = g.unpack_rec(Some(64));
+                            }
+                        }));
+                        if let Err(e) = r { if bad.len()<3 {
+                            let msg = if let Some(s) = e.downcast_ref::<String>() { s.clone() } else if let Some(s) = e.downcast_ref::<&str>() { s.to_string() } else { "?".to_string() };
+                            bad.push(format!("{} = {}: {}",k,v.dump(),msg.replace('\n'," "))); } }
                     }
                 }
                 if bad.is_empty() { format!("swept variants={}",n) } else { format!("PANICKED {}",bad.join("; ")) }
